@@ -376,10 +376,10 @@ pub fn run_prop<C, S>(
 	S: Strategy<Value = C>,
 	C: Clone + std::fmt::Debug + Serialize + Send + Sync,
 {
-	if let Some(p) = &ctx.replay {
-		let _ = p;
+	if ctx.replay.is_some() || !section_enabled(kind) {
 		return;
 	}
+	let n = dev_count(n);
 	let mut runner = new_runner(ctx.seed, kind);
 	let mut trees = Vec::with_capacity(n);
 	for _ in 0..n {
@@ -413,8 +413,10 @@ pub fn run_prop<C, S>(
 				let tree = &mut trees[i];
 				let mut best: (Value, String) = (repro.clone().unwrap_or(cj.clone()), detail.clone());
 				let mut budget = shrink_budget();
+				let shrink_start = Instant::now();
+				let shrink_secs = std::env::var("VERIF_SHRINK_SECS").ok().and_then(|s| s.parse().ok()).unwrap_or(90u64);
 				if repro.is_none() {
-					'outer: while budget > 0 && tree.simplify() {
+					'outer: while budget > 0 && shrink_start.elapsed().as_secs() < shrink_secs && tree.simplify() {
 						loop {
 							budget -= 1;
 							let v = tree.current();
@@ -428,7 +430,7 @@ pub fn run_prop<C, S>(
 									break;
 								}
 								_ => {
-									if budget == 0 || !tree.complicate() {
+									if budget == 0 || shrink_start.elapsed().as_secs() >= shrink_secs || !tree.complicate() {
 										break 'outer;
 									}
 								}
@@ -440,6 +442,18 @@ pub fn run_prop<C, S>(
 			}
 		}
 	}
+}
+
+/// development aid: VERIF_ONLY=kind1,kind2 restricts a run to these sections
+pub fn section_enabled(kind: &str) -> bool {
+	match std::env::var("VERIF_ONLY") {
+		Ok(v) if !v.is_empty() => v.split(',').any(|k| kind.starts_with(k)),
+		_ => true,
+	}
+}
+
+pub fn dev_count(default: usize) -> usize {
+	std::env::var("VERIF_N").ok().and_then(|s| s.parse().ok()).unwrap_or(default)
 }
 
 fn shrink_budget() -> usize {
@@ -460,7 +474,7 @@ pub fn run_list<C>(
 ) where
 	C: Clone + std::fmt::Debug + Serialize + Send + Sync,
 {
-	if ctx.replay.is_some() {
+	if ctx.replay.is_some() || !section_enabled(kind) {
 		return;
 	}
 	let outcomes = par_map(cases, par, exec);
